@@ -53,7 +53,11 @@ def pickOp (ph : Phase) : List String → Option Op
 def stepLine (st : St) (w : List String) : St × String :=
   match w with
   | ["table"] => (st, "\n".intercalate tableLines)
-  | ["new"] => (initState, "op=new phase=idle state=0 stale=- writes=-")
+  | ["new"] =>
+    -- a fresh decoder: `fe_init` has run (writes the process-wide warp statics and the instance's configuration)
+    match step decoderSys (fun _ => ()) (fun _ (_ : Unit) _ _ => ()) initState .initFe () with
+    | .ok st' => (st', s!"op=initFe phase={st'.1.name} state={st'.1.code} stale=- writes=cfg,ginit,log")
+    | .error _ => (initState, "op=initFe error=protocol phase=idle state=0")
   | "op" :: call =>
     match pickOp st.1 call with
     | none => (st, "error=unknown-call")
